@@ -104,13 +104,13 @@ class Multitask:
         export_function = getattr(self, f"export_to_{save_as}")
 
         # check parent directories
+        save_path = save_path if save_path is not None else "multitask"
         for id_optimizer, optimizer in enumerate(self._algorithms):
-            save_path = save_path if save_path is not None else "multitask"
-            save_path = f"{save_path}/{optimizer.name}"
-            Path(save_path).mkdir(parents=True, exist_ok=True)
+            optimizer_path = f"{save_path}/{optimizer.name}"
+            Path(optimizer_path).mkdir(parents=True, exist_ok=True)
 
             filename = f"tuning_best_fit_{optimizer.name}_{datetime.now().strftime('%Y%m%d%H%M%S')}"
-            export_function(self._df2[id_optimizer], f"{save_path}/{filename}")
+            export_function(self._df2[id_optimizer], f"{optimizer_path}/{filename}")
 
     def __run__(
         self,
